@@ -1,4 +1,5 @@
 import NflowsModel.Audit.Tool
 import NflowsModel.Properties.C04
+import NflowsModel.Properties.C04P
 
 #audit_namespace Properties.C04
